@@ -1,6 +1,6 @@
 """The (Packed, Packed) arm of `unification::merge` against PackedMerge.tla.
 
- spec -> impl: PackedGen (TLC) enumerates every pair of packed encodings of <= 2 spans over a word of 5 units (quick) or
+ spec -> impl: PackedGen (TLC) enumerates every pair of packed encodings of <= 2 spans over a word of 6 units (quick) or
                <= 3 spans over 6 units (thorough) - spans with holes, touching, nested, straddling - with distinct
                variables; the harness combines each pair with the real `merge` (one unit = 32 bits).
  impl -> spec: PackedTrace.tla judges the resulting spans, equalities and judgements against the common refinement:
